@@ -253,6 +253,8 @@ class Target:
                     out.append(f'#define NV_ARG_{f.cname}_{k} {pm.group(1)}')
             for k, nm in sorted(f.printer.loop_counters.items()):
                 out.append(f'#define NV_LOOPVAR_{f.cname}_{k} {nm}')
+            for k, b in sorted(f.printer.loop_bounds.items()):
+                out.append(f'#define NV_LOOPBOUND_{f.cname}_{k} {b}')
         for f in present:
             out.append(f'#ifndef NV_CONTRACT_{f.cname}\n#define NV_CONTRACT_{f.cname}\n#endif')
         for m in loops:
